@@ -1,6 +1,6 @@
 SPECIFICATION TSpec
 CONSTANTS
-  NW = 4
+  NW = 7
   NC = 2
   Tasks <- TrTasks
   MaxOps <- TrOps
